@@ -6,6 +6,8 @@ package consensus
 // C15). Re-exports only; no logic under test is re-implemented here.
 
 import (
+	"sync"
+
 	"github.com/tendermint/tendermint/libs/log"
 	"github.com/tendermint/tendermint/p2p"
 	cstypes "github.com/tendermint/tendermint/consensus/types"
@@ -21,10 +23,24 @@ type VerifMsgInfo = msgInfo
 // VerifTicker is a TimeoutTicker that never fires by itself: it remembers the armed timeout with the same
 // replacement rule as timeoutTicker.timeoutRoutine, and the harness decides when it fires.
 type VerifTicker struct {
+	mu     sync.Mutex  // with a started State, OnStart and the receive routine both schedule
 	Cur    timeoutInfo // last accepted schedule request
 	Armed  bool
 	C      chan timeoutInfo // handed to receiveRoutine by Chan(); unbuffered
 	Nsched int
+}
+
+// IsArmed / Current: lock-protected reads for harnesses that drive a STARTED State from another goroutine.
+func (t *VerifTicker) IsArmed() bool {
+	t.mu.Lock()
+	defer t.mu.Unlock()
+	return t.Armed
+}
+
+func (t *VerifTicker) Current() timeoutInfo {
+	t.mu.Lock()
+	defer t.mu.Unlock()
+	return t.Cur
 }
 
 func NewVerifTicker() *VerifTicker { return &VerifTicker{C: make(chan timeoutInfo)} }
@@ -36,6 +52,8 @@ func (t *VerifTicker) SetLogger(log.Logger)     {}
 func (t *VerifTicker) Chan() <-chan timeoutInfo { return t.C }
 
 func (t *VerifTicker) ScheduleTimeout(newti timeoutInfo) {
+	t.mu.Lock()
+	defer t.mu.Unlock()
 	ti := t.Cur
 	t.Nsched++
 	// same staleness rule as timeoutTicker.timeoutRoutine
@@ -56,6 +74,8 @@ func (t *VerifTicker) ScheduleTimeout(newti timeoutInfo) {
 
 // Take returns the armed timeout and disarms the ticker (the timer "fired").
 func (t *VerifTicker) Take() (timeoutInfo, bool) {
+	t.mu.Lock()
+	defer t.mu.Unlock()
 	if !t.Armed {
 		return timeoutInfo{}, false
 	}
